@@ -28,7 +28,9 @@ Oracles
 
 Triage (DESIGN.md C14).  The generated grid is split in
   * core grid   - every option at a value the repo's tests, presets or docs examples use;
-  * extended    - the remaining values of the DESIGN grid.
+  * extended    - the remaining values of the DESIGN grid, and the backbone `kernel_size` axis (3 in the
+                  core grid; 5, 2, 4, 1 - odd, even and pointwise kernels - as a deviation class of its own,
+                  alone or combined with a stem / convs_per_block deviation, and rarely in every other class).
 Failures of a configuration that satisfies one of the *listed predicates* below go to the
 single bucket `ext:<backbone>:<predicate>` (first matching predicate in the fixed order
 of `PREDICATES`, whatever the failure looks like); every other failure - core grid or
@@ -51,7 +53,9 @@ RULE = (
     "extended grid parts) and, in the thorough tier, every grid configuration enumerated once with a "
     "rotating call sequence; non-trivial = the model was built and the configuration has a stem "
     "(unet stem_stride / convnext,swint stem_patch_stride=4) or unequal head strides or "
-    "up_interpolate=False, or the call sequence contains two different input sizes; distinct by hash "
+    "up_interpolate=False, or the call sequence contains two different input sizes; the backbone kernel_size is 3 in "
+    "the core grid and 3 mostly / 5, 2, 4, 1 in the extended grid (own deviation class 'kernel_size!=3': one-axis, or "
+    "combined with a stem / convs_per_block deviation; thorough: kernel sub-grid); distinct by hash "
     "of the serialised case"
 )
 ASSUMPTIONS = [
@@ -64,6 +68,13 @@ ASSUMPTIONS = [
     "architecture exists",
     "convnext/swint: model_type 'tiny' only (the other presets differ in depth/width, not in stride "
     "bookkeeping); window_size [7,7], patch_size [4,4], stem_patch_kernel 4 fixed",
+    "backbone kernel_size (a 'filter setting' of UNetConfig / ConvNextConfig / SwinTConfig, documented only as '(int) "
+    "Size of the convolutional kernels. Default is 3.') is generated in {3, 5, 2, 4, 1}: odd and even values are valid "
+    "inputs - on the unchanged tree every value 1..7 builds and runs for the three families with every stem and "
+    "convs_per_block (probed by hand, 294 configurations; 6 and 7 are not generated for cost); a failure of a "
+    "kernel_size != 3 configuration that matches no listed predicate is a violation (bucket suffix "
+    ":kernel_size=even|odd>3|1), one that matches a listed predicate is attributed to the predicate as before; "
+    "non-square / tuple kernel sizes and the fixed stem kernels (unet 7, stem_patch_kernel 4) are not varied",
     "eval() mode only; train-mode stochastic depth is outside the statement",
     "same-size repeat comparisons are exact (single thread, same kernel, same data); batch-vs-single "
     "comparisons use 1e-5*(1+max|ref|) (1e-4*(1+max|ref|) for a raw 0..255 frame: measured maxima 2.3e-7 / 8.7e-7) "
@@ -89,10 +100,10 @@ MODEL_TYPES = list(HEAD_KEYS)
 # case construction helpers (shared by strategies and the enumerator)
 
 
-def unet_config(max_stride, stem_stride, filters, filters_rate, convs_per_block, up_interpolate, middle_block, in_channels, output_stride):
+def unet_config(max_stride, stem_stride, filters, filters_rate, convs_per_block, up_interpolate, middle_block, in_channels, output_stride, kernel_size=3):
     return {
         "in_channels": in_channels,
-        "kernel_size": 3,
+        "kernel_size": kernel_size,
         "filters": filters,
         "filters_rate": filters_rate,
         "max_stride": max_stride,
@@ -105,12 +116,12 @@ def unet_config(max_stride, stem_stride, filters, filters_rate, convs_per_block,
     }
 
 
-def tv_config(backbone, stem_patch_stride, max_stride, filters_rate, convs_per_block, up_interpolate, in_channels, output_stride):
+def tv_config(backbone, stem_patch_stride, max_stride, filters_rate, convs_per_block, up_interpolate, in_channels, output_stride, kernel_size=3):
     d = {
         "in_channels": in_channels,
         "model_type": "tiny",
         "arch": None,
-        "kernel_size": 3,
+        "kernel_size": kernel_size,
         "filters_rate": filters_rate,
         "convs_per_block": convs_per_block,
         "up_interpolate": up_interpolate,
@@ -139,6 +150,24 @@ def head_configs(model_type, strides, n_parts, n_edges):
         "confmaps": {"part_names": names, "sigma": 1.5, "output_stride": strides[0], "loss_weight": 1.0},
         "pafs": {"edges": edges, "sigma": 4.0, "output_stride": strides[1], "loss_weight": 1.0},
     }
+
+
+# Convolution kernel size of the backbone (`kernel_size` of UNetConfig / ConvNextConfig / SwinTConfig:
+# UNet encoder + decoder convs, ConvNeXt / Swin-T decoder refine convs).  3 is the only value the repo's
+# tests / presets / docs examples use (core); the deviations are drawn in the extended grid.  All of 1..7
+# build and run on the unchanged tree for the three families (odd AND even: the stride-1 convs use
+# padding="same"), with every stem and convs_per_block 2, 3.
+KERNEL_CORE = 3
+KERNEL_DEVS = [5, 2, 4, 1]
+
+
+def kernel_class(k):
+    """Coarse class of a kernel size; names the failure bucket of a non-default kernel."""
+    if k == KERNEL_CORE:
+        return "3"
+    if k == 1:
+        return "1"
+    return "even" if k % 2 == 0 else "odd>3"
 
 
 # Value-range class of one input frame (see module docstring).  "unit", "const", "zero" stay
@@ -256,6 +285,8 @@ def is_core(case):
     hs = head_strides(case)
     if any(s not in (1, 2, 4) for s in hs):
         return False
+    if b["kernel_size"] != KERNEL_CORE:
+        return False
     if case["backbone_type"] == "unet":
         return (
             b["middle_block"]
@@ -271,6 +302,13 @@ def is_core(case):
         and min(hs) <= b["stem_patch_stride"]
         and all(h % encoder_stride(case) == 0 and w % encoder_stride(case) == 0 for h, w in case["calls"])
     )
+
+
+def core_but_kernel(case):
+    """The configuration would be in the core grid if its kernel size were 3 (one-axis deviation)."""
+    c = dict(case)
+    c["backbone_config"] = dict(case["backbone_config"], kernel_size=KERNEL_CORE)
+    return is_core(c)
 
 
 # ----------------------------------------------------------------------------------
@@ -387,6 +425,17 @@ def evaluate(case):
     )
     if stem and len(set(hs)) > 1:
         res.cls("stem+unequal-head-strides")
+    # kernel-size axis: value, parity class per backbone, and the combinations with stem / convs_per_block
+    ksz = b["kernel_size"]
+    kcls = kernel_class(ksz)
+    res.cls(f"kernel_size={ksz}", f"{bb}:kernel={kcls}")
+    if ksz != KERNEL_CORE:
+        res.cls(
+            f"kernel!=3:{kcls}:judged" if not pred else f"kernel!=3:{kcls}:listed-predicate",
+            f"kernel!=3+stem={stem}",
+            f"kernel!=3+convs_per_block={b['convs_per_block']}",
+            "kernel!=3:" + ("one-axis-deviation" if core_but_kernel(case) else "combined-deviation"),
+        )
     # value-range axis: the (unordered) set of frame ranges, and for batches the mix class
     res.cls("ranges=" + "+".join(sorted(set(ranges))) + f":batch={case['batch']}")
     for r in sorted(set(ranges)):
@@ -400,7 +449,9 @@ def evaluate(case):
         )
 
     def fail(bucket, msg):
-        res.fail(f"ext:{bb}:{pred}" if pred else f"{bucket}:{bb}", f"{msg} | {bucket} | cfg={b} heads={mt}{hs} calls={sizes}")
+        # a non-default kernel size is part of the bucket: same clause, other input class
+        ktag = "" if ksz == KERNEL_CORE else f":kernel_size={kcls}"
+        res.fail(f"ext:{bb}:{pred}" if pred else f"{bucket}:{bb}{ktag}", f"{msg} | {bucket} | cfg={b} heads={mt}{hs} calls={sizes}")
 
     def call(prefix, fn, *a):
         try:
@@ -629,6 +680,7 @@ UNET_DEVS = [
     "head_stride>=8",
     "stem_stride=4",
     "filters=8",
+    "kernel_size!=3",
 ]
 TV_DEVS = [
     "filters_rate=1.5",
@@ -638,7 +690,19 @@ TV_DEVS = [
     "convs_per_block!=2",
     "head_stride>=8",
     "max_stride=32-with-stem4",
+    "kernel_size!=3",
 ]
+# Deviation class "kernel_size!=3": (kernel, stem, convs_per_block, mode) is ONE choice.  mode "one-axis": every
+# other option at a core value; "combined": together with a stem / convs_per_block deviation (convs_per_block=1 of
+# the unet is a listed predicate whose failures are not judged, so it is left to the `rare` draws).
+KERNEL_UNET = [(k, stem, 2, "one-axis") for k in KERNEL_DEVS for stem in (None, 2)] + [
+    (k, stem, cpb, "combined") for k in KERNEL_DEVS for stem, cpb in ((4, 2), (None, 3), (2, 3), (4, 3))
+]
+KERNEL_TV = [(k, stemp, 2, "one-axis") for k in KERNEL_DEVS for stemp in (2, 4)] + [
+    (k, stemp, cpb, "combined") for k in KERNEL_DEVS for stemp in (2, 4) for cpb in (1, 3)
+]
+# kernel size of the cases of every other deviation class: mostly 3
+KERNEL_RARE = [KERNEL_CORE] * 12 + KERNEL_DEVS
 
 
 def ext_strategy(weights):
@@ -649,19 +713,30 @@ def ext_strategy(weights):
     def case(draw):
         bb = draw(st.sampled_from(weights))
         rare = lambda core_vals, ext_vals: draw(st.sampled_from(list(core_vals) * 4 + list(ext_vals)))  # noqa: E731
+        # Kernel-axis choices are indexed by a wide integer draw: `sampled_from` over a short list is very lumpy in
+        # a 140-example run (measured: kernel 1 drawn 48x and kernel 2 never), a 16-bit integer modulo the list
+        # length is not.
+        pick = lambda choices: choices[draw(st.integers(0, 2**16 - 1)) % len(choices)]  # noqa: E731
         if bb == "unet":
             dev = draw(st.sampled_from(UNET_DEVS))
             ms = draw(st.sampled_from([8, 16, 32]))
             if dev == "head_stride>=8" and ms == 8:
                 ms = 16
-            stem = 4 if dev == "stem_stride=4" else rare([None, 2], [4])
-            filters = 8 if dev == "filters=8" else draw(st.sampled_from([8, 8, 16, 24]))
+            if dev == "kernel_size!=3":
+                ksz, stem, cpb, kmode = pick(KERNEL_UNET)
+                one_axis = kmode == "one-axis"
+                filters = draw(st.sampled_from([16, 24] if one_axis else [8, 8, 16, 24]))
+                mb = True
+            else:
+                ksz, one_axis = pick(KERNEL_RARE), False
+                stem = 4 if dev == "stem_stride=4" else rare([None, 2], [4])
+                filters = 8 if dev == "filters=8" else draw(st.sampled_from([8, 8, 16, 24]))
+                mb = False if dev == "middle_block=false" else rare([True], [False])
+                cpb = {"convs_per_block=1": 1, "convs_per_block=3": 3}.get(dev) or rare([2], [1, 3])
             fr = draw(st.sampled_from([1.5, 2]))
             upi = draw(st.booleans())
             inch = draw(st.sampled_from([1, 3]))
-            mb = False if dev == "middle_block=false" else rare([True], [False])
-            cpb = {"convs_per_block=1": 1, "convs_per_block=3": 3}.get(dev) or rare([2], [1, 3])
-            allowed = [s for s in STRIDES if s < ms]
+            allowed = [s for s in ((1, 2, 4) if one_axis else STRIDES) if s < ms]
             mt, hs = _draw_heads(draw, st, allowed)
             k = draw(st.integers(0, len(hs) - 1))
             if dev == "head_stride=max_stride":
@@ -669,13 +744,17 @@ def ext_strategy(weights):
             elif dev == "head_stride>=8":
                 hs[k] = draw(st.sampled_from([s for s in allowed if s >= 8]))
             mults, (batch, ranges), n_parts, n_edges, seed = _draw_common(draw, st)
-            bcfg = unet_config(ms, stem, filters, fr, cpb, upi, mb, inch, min(hs))
+            bcfg = unet_config(ms, stem, filters, fr, cpb, upi, mb, inch, min(hs), ksz)
             return make_case(bb, bcfg, mt, hs, n_parts, n_edges, batch, _sizes(ms, mults), seed, ranges)
         dev = draw(st.sampled_from(TV_DEVS))
-        stemp = 4 if "stem4" in dev else draw(st.sampled_from([2, 4]))
         ms = 32 if dev == "max_stride=32-with-stem4" else 16
         fr = 1.5 if dev == "filters_rate=1.5" else 2
-        cpb = draw(st.sampled_from([1, 3])) if dev == "convs_per_block!=2" else rare([2], [1, 3])
+        if dev == "kernel_size!=3":
+            ksz, stemp, cpb, _ = pick(KERNEL_TV)
+        else:
+            ksz = pick(KERNEL_RARE)
+            stemp = 4 if "stem4" in dev else draw(st.sampled_from([2, 4]))
+            cpb = draw(st.sampled_from([1, 3])) if dev == "convs_per_block!=2" else rare([2], [1, 3])
         upi = draw(st.booleans())
         inch = draw(st.sampled_from([1, 3]))
         mt, hs = _draw_heads(draw, st, [1, 2, 4, 8, 16] if dev in ("head_stride>=8",) else [1, 2, 4])
@@ -700,7 +779,7 @@ def ext_strategy(weights):
         else:
             pool = [(1, 1), (1, 2), (2, 1), (2, 2), (1, 3), (3, 1)]
         mults, (batch, ranges), n_parts, n_edges, seed = _draw_common(draw, st, pool)
-        bcfg = tv_config(bb, stemp, ms, fr, cpb, upi, inch, min(hs))
+        bcfg = tv_config(bb, stemp, ms, fr, cpb, upi, inch, min(hs), ksz)
         return make_case(bb, bcfg, mt, hs, n_parts, n_edges, batch, _sizes(unit, mults), seed, ranges)
 
     return case()
@@ -771,6 +850,25 @@ def grid_cases(tier):
                 else:
                     seq = MULT_SEQS[n % len(MULT_SEQS)]
                 cases.append(make_case(bb, bcfg, mt, hs, n_parts, 1 + n % (n_parts - 1), 1 + n % 2, _sizes(ms, seq), n, _grid_ranges(n)))
+    # kernel-size sub-grid (the grid above is all kernel_size=3): every non-default kernel with every stem,
+    # convs_per_block 2 / 3 (unet; 1 is a listed predicate) resp. 1 / 2 / 3 (convnext, swint), up_interpolate and
+    # max_stride at one narrow width, heads at the strides 1, 2, 4 (single_instance: each; bottomup: every ordered pair)
+    for ksz, ms, stem, cpb, upi in itertools.product(KERNEL_DEVS, [8, 16, 32], [None, 2, 4], [2, 3], [True, False]):
+        allowed = [s for s in (1, 2, 4) if s < ms]
+        for mt, hs in [("single_instance", [a]) for a in allowed] + [("bottomup", [a, b]) for a in allowed for b in allowed]:
+            n += 1
+            bcfg = unet_config(ms, stem, 8, [1.5, 2][n % 2], cpb, upi, True, 1 + 2 * (n % 2), min(hs), ksz)
+            n_parts = 2 + n % 3
+            seqs = MULT_SEQS_SMALL if ms == 32 else MULT_SEQS
+            cases.append(make_case("unet", bcfg, mt, hs, n_parts, 1 + n % (n_parts - 1), 1 + n % 2, _sizes(ms, seqs[n % len(seqs)]), n, _grid_ranges(n)))
+    for ksz, bb, stemp, cpb, upi in itertools.product(KERNEL_DEVS, ["convnext", "swint"], [2, 4], [1, 2, 3], [True, False]):
+        allowed = [s for s in (1, 2, 4) if s <= stemp]
+        for mt, hs in [("single_instance", [a]) for a in allowed] + [("bottomup", [a, b]) for a in (1, 2, 4) for b in (1, 2, 4) if min(a, b) <= stemp]:
+            n += 1
+            bcfg = tv_config(bb, stemp, 16, 2, cpb, upi, 1 + 2 * (n % 2), min(hs), ksz)
+            n_parts = 2 + n % 3
+            seq = TV_SEQS_EVEN[n % len(TV_SEQS_EVEN)] if stemp == 4 else MULT_SEQS[n % len(MULT_SEQS)]
+            cases.append(make_case(bb, bcfg, mt, hs, n_parts, 1 + n % (n_parts - 1), 1 + n % 2, _sizes(16, seq), n, _grid_ranges(n)))
     random.Random(14).shuffle(cases)
     return cases
 
@@ -826,7 +924,11 @@ def extra_coverage():
         "{in_channels 1,3} (configurations matching a listed unet predicate: filters 8,16 only) and convnext/swint tiny {stem_patch_stride 2,4} x {max_stride 16 | 16,32} x {filters_rate 1.5,2} x "
         "{convs_per_block 1,2,3} x up_interpolate x {in_channels 1,3}, each x {single_instance, centered_instance, centroid: "
         "every head stride <= max_stride; bottomup: every ordered pair}; one call sequence / batch size / seed per "
-        "configuration (rotating), not the product with all input sizes",
+        "configuration (rotating), not the product with all input sizes; all of the above at kernel_size 3, plus the "
+        "kernel-size sub-grid kernel_size {5,2,4,1} x unet {max_stride 8,16,32} x {stem_stride None,2,4} x {convs_per_block "
+        "2,3} x up_interpolate (filters 8, middle_block) resp. convnext/swint {stem_patch_stride 2,4} x {convs_per_block "
+        "1,2,3} x up_interpolate, each x {single_instance at every head stride of 1,2,4; bottomup at every ordered pair}",
+        "kernel_sizes": [KERNEL_CORE] + KERNEL_DEVS,
         "listed_predicates": {k: [n for n, _ in v] for k, v in PREDICATES.items()},
     }
 
